@@ -113,3 +113,11 @@ impl SubstreamId {
         self.0
     }
 }
+
+#[cfg(feature = "verif")]
+impl RequestId {
+    /// Verification hook: raw value.
+    pub fn verif_raw(&self) -> usize {
+        self.0
+    }
+}
